@@ -20,8 +20,10 @@ def build_tls(rng, reg):
     random = lead.to_bytes(4, 'big') + rng.randbytes(28)
     sid = rng.randbytes(rng.choice((0, 0, 1, 32)))
     regl = sorted(reg)
-    ids = [rng.choice(regl) if rng.random() < .6 else rng.randrange(65536) for _ in range(rng.choice((0, 1, 2, 5, 40)))]
-    comp = [rng.randrange(256) for _ in range(rng.choice((0, 1, 2)))]
+    # list lengths: mostly short, now and then up to the wire maximum (32767 ids) and around sizes an implementation might cap at
+    nids = rng.choice((255, 256, 257, 4160, 8320, 8321, 16384, 32766, 32767)) if rng.random() < .012 else rng.choice((0, 1, 2, 5, 40))
+    ids = [rng.choice(regl) if rng.random() < .6 else rng.randrange(65536) for _ in range(nids)]
+    comp = [rng.randrange(256) for _ in range(rng.choice((0, 1, 2, 2, 255)))]
     ext = None if rng.random() < .3 else rng.randbytes(rng.choice((0, 4, 30)))
     return version, random, sid, ids, comp, ext, lead
 
